@@ -8,6 +8,7 @@ def check(ctx, rep):
     rxr.rx_9(ctx, rep)
     rxr.rx_11(ctx, rep)
     tok.tok_1_2(ctx, rep, pf.acc)
+    tok.tok_3(ctx, rep, pf.acc)
     tok.tok_4(ctx, rep)
     tok.tok_5(ctx, rep)
     tok.tok_6(ctx, rep)
